@@ -30,6 +30,8 @@ def run_case(c):
                       lambda d: {x: integer(y) for x, y in d.items()}))
         for sp in (440, 432):
             R.append(call("hz_spelling", dict(i, sp=sp), lambda: res12(Note(n, o).to_hertz(sp) / Note().from_int(int(Note(n, o))).to_hertz(sp) - 1) if int(Note(n, o)) >= 0 else 0))
+            # doubling per octave asked by name (the lowest names, Cb-0 and Cbb-0, lie below pitch number 0)
+            R.append(call("hz_octave", dict(i, sp=sp), lambda: res12(Note(n, o + 1).to_hertz(sp) / Note(n, o).to_hertz(sp) / 2 - 1)))
         def cp():
             a = Note(n, o)
             before = full(a)
